@@ -22,12 +22,15 @@ EXTENDS FlatOps, Json
 CONSTANTS MsgT,       \* descriptor of the message type
           Streams,    \* sequence of [bytes |-> byte sequence, nmsg |-> number of whole valid messages it is made of or -1]
           MaxMsgLen,  \* max_msg_len given to Receiver::io
+          CapExtra,   \* 1000: the buffer Receiver::io allocates (2 * max_msg_len); k < 1000: an explicit IoBuffer whose capacity is
+                      \* the largest message plus k bytes (any capacity that can hold the largest message is admissible)
           ChunkMax,   \* largest number of bytes a single read delivers
           FaultMax,   \* how many read errors the environment may inject
           Policy,
+          ErrKinds,   \* io::ErrorKind names the injected read errors are drawn from (the algorithm may not distinguish them)
           Record      \* keep the history variable (FALSE for liveness checking: the state space stays finite and small)
 
-Cap == 2 * MaxI(MaxMsgLen, MinSize(MsgT))
+Cap == IF CapExtra < 1000 THEN CeilMul(MaxI(MaxMsgLen, MinSize(MsgT)) + CapExtra, Align(MsgT)) ELSE 2 * MaxI(MaxMsgLen, MinSize(MsgT))
 
 VARIABLES si,         \* index of the stream being received
           rd,         \* bytes of the stream handed to the receiver so far
@@ -44,7 +47,8 @@ View == <<si, rd, buf, ws, we, rpc, cur, nret, consumed, calls, faults>>
 
 Stream == Streams[si].bytes
 Occupied == SubSeq(buf, ws + 1, we)
-Ev(e, n, pos) == [e |-> e, n |-> n, pos |-> pos]
+Ev(e, n, pos) == [e |-> e, n |-> n, pos |-> pos, kind |-> ""]
+EvK(e, n, pos, kind) == [e |-> e, n |-> n, pos |-> pos, kind |-> kind]
 Log(ev) == path' = IF Record THEN Append(path, ev) ELSE path
 
 Init ==
@@ -99,7 +103,7 @@ ReadEof ==         \* the pipe reports end of stream: read() = 0 => Closed
 ReadErr ==         \* a transient read error: recv returns Err(Read(e)); the receiver may be used again
   /\ rpc = "read" /\ we < Cap /\ faults < FaultMax
   /\ rpc' = "idle" /\ faults' = faults + 1 /\ calls' = calls + 1
-  /\ Log(Ev("rerr", 0, rd))
+  /\ \E ek \in ErrKinds : Log(EvK("rerr", 0, rd, ek))
   /\ UNCHANGED <<si, rd, buf, ws, we, cur, nret, consumed>>
 
 GuardDrop ==       \* RecvGuard::drop: skip(size())
